@@ -114,7 +114,7 @@ func genReqObj(t *rapid.T, c *Case) *ReqObjCase {
 	nmut := rapid.SampledFrom([]int{0, 0, 1, 1, 1, 1, 1, 2, 2}).Draw(t, "nmut")
 	var origin []string
 	for i := 0; i < nmut; i++ {
-		dim := rapid.SampledFrom([]string{"signer", "signer", "signer", "foreign", "foreign", "iss", "aud", "aud", "client_id", "response_type", "kid"}).Draw(t, "dim")
+		dim := rapid.SampledFrom([]string{"signer", "signer", "signer", "foreign", "foreign", "iss", "aud", "aud", "client_id", "response_type", "kid", "mangle", "mangle", "mangle"}).Draw(t, "dim")
 		origin = append(origin, dim)
 		switch dim {
 		case "signer":
@@ -147,6 +147,9 @@ func genReqObj(t *rapid.T, c *Case) *ReqObjCase {
 			o.Iss = sp(Y.ID)
 			// client_id claim: still the requester's, the signer's, or left out
 			o.ClientID = rapid.SampledFrom([]*string{sp(X.ID), sp(Y.ID), nil}).Draw(t, "foreign-cid")
+		case "mangle":
+			// a string nobody signed: perfect claims, but the JOSE header / the signature segment / the dot structure is broken
+			o.Tok.Mangle = genMangle(t)
 		case "iss":
 			o.Iss = rapid.SampledFrom([]*string{sp(Y.ID), sp(""), nil, sp("c-zeta")}).Draw(t, "iss")
 		case "aud":
@@ -409,8 +412,8 @@ func runReqObj(c Case, res *vkit.Result) {
 		switch {
 		case len(used) > 0:
 			res.Label("ro:invalid:object-used")
-			res.Fail("C14:reqobj-honoured:"+strings.Join(failed, "+"), "parameters %v of a request object that fails %v are in effect (%s, outer client %s, object iss=%q client_id=%q key=%s kid=%s sig=%s; outcome %s)",
-				used, failed, r.Via, X.ID, strOr(r.Obj.Iss), strOr(r.Obj.ClientID), r.Obj.Tok.Key, strOr(r.Obj.Tok.Kid), r.Obj.Tok.Sig, outcome)
+			res.Fail("C14:reqobj-honoured:"+strings.Join(failed, "+"), "parameters %v of a request object that fails %v are in effect (%s, outer client %s, object iss=%q client_id=%q key=%s kid=%s sig=%s%s; outcome %s)",
+				used, failed, r.Via, X.ID, strOr(r.Obj.Iss), strOr(r.Obj.ClientID), r.Obj.Tok.Key, strOr(r.Obj.Tok.Kid), r.Obj.Tok.Sig, mangleNote(r.Obj.Tok), outcome)
 		case outcome == "refused" || outcome == "error":
 			res.Label("ro:invalid:refused")
 		default:
@@ -419,10 +422,16 @@ func runReqObj(c Case, res *vkit.Result) {
 	}
 	rel, _, _ := keyRelation(c, sp(X.ID), r.Obj.Tok)
 	res.Label("ro:signer:" + strings.SplitN(rel, ":", 2)[0])
+	if m := r.Obj.Tok.Mangle; m != "" {
+		res.Label("ro:mangle:"+mangleClass(m), "ro:mangled:"+m)
+		if len(failed) == 1 && failed[0] == "signer" {
+			res.Label("ro:mangle-only:" + mangleClass(m)) // perfect claims, only the JOSE layer is broken
+		}
+	}
 	res.Info = map[string]any{"valid": valid, "failed": failed, "outcome": outcome, "object_params_in_effect": used, "plain_params_in_effect": plain, "observed": info}
 	res.NonTrivial = !valid || len(used) > 0
 	res.Key = fmt.Sprintf("reqobj|%s|%s|failed=%v|signer=%s|sig=%s|rt=%s|fields=%s|objuri=%s|outcome=%s|used=%v|kf=%s",
-		r.Via, c.Router, failed, rel, r.Obj.Tok.Sig, r.Outer.ResponseType, overrideMask(r.Obj), uriClass(X, r.Obj.RedirectURI), outcome, used, r.KeyFault)
+		r.Via, c.Router, failed, rel, r.Obj.Tok.Sig+"/"+r.Obj.Tok.Mangle, r.Outer.ResponseType, overrideMask(r.Obj), uriClass(X, r.Obj.RedirectURI), outcome, used, r.KeyFault)
 }
 
 func overrideMask(o ObjSpec) string {
